@@ -50,12 +50,26 @@ func universe0() []Ty {
 	}
 	out = append(out, Pat("a", "^$"), Pat("[a-c]", "^a*$"))
 	out = append(out, Rx(""), Rx("a"), Rx("^$"))
+	out = append(out, Runtime("", ""), Runtime("ruby", ""), Runtime("ruby", "a"), Runtime("ruby", "a", "a"), Runtime("ruby", "a", "b"),
+		Runtime("ruby", "", "a"), Runtime("", "a"), Runtime("go", ""), Runtime("x", "a"))
 	for _, r := range []rng{{0, MaxI}, {0, 0}, {1, 1}, {1, 2}, {2, 5}, {0, 5}, {1, MaxI}} {
 		out = append(out, Coll(r.lo, r.hi))
 	}
 	out = append(out, Obj(), Obj(1), Obj(1, 1), Obj(2))
 	out = append(out, Tup(nil), TupSz(nil, 0, MaxI), TupSz(nil, 0, 0), TupSz(nil, 1, 2))
 	out = append(out, Struct(), Var())
+	return out
+}
+
+// RuntimeUniverse: every Runtime type over runtimes {"", ruby, x}, names {"", a, B}, patterns {none, /a/, /b/} — the 27 shapes of
+// RuntimeType.IsAssignable / Equals / commonType told apart (Go types and the 'go' runtime with a name are outside the term language)
+func RuntimeUniverse() []Ty {
+	out := []Ty{}
+	for _, rt := range []string{"", "ruby", "x"} {
+		for _, nm := range []string{"", "a", "B"} {
+			out = append(out, Runtime(rt, nm), Runtime(rt, nm, "a"), Runtime(rt, nm, "b"))
+		}
+	}
 	return out
 }
 
